@@ -626,11 +626,13 @@ def build_part(L, part, seed, tier):
                 v |= c << (4 * i)
             return v
 
-        seqs = [[], [1], [2], [3], [4], [6], [2, 1], [2, 2, 3], [1, 6, 2, 7], [4, 5, 2], [8, 2, 8], [1, 2, 3, 4, 5, 6, 7, 8]]
-        for i in range(20 if big else 4):
+        seqs = [[], [1], [2], [3], [4], [2, 1], [1, 6, 2, 7], [1, 2, 3, 4, 5, 6, 7, 8]]
+        if big:
+            seqs += [[6], [2, 2, 3], [4, 5, 2], [8, 2, 8]]
+        for i in range(12 if big else 2):
             seqs.append([rng.randint(1, 8) for _ in range(rng.randint(2, 9))])
         needles = []
-        for e in (0x41, 0xe9, 0xff, 0x00, 0x01, 0x80, 0x7f, 0xe9e9, 0xffff, 0x8000, 0x7fff, 0x80e9):
+        for e in ((0x41, 0xe9, 0xff, 0x00, 0x01, 0x80, 0x7f, 0xe9e9, 0xffff, 0x8000, 0x7fff, 0x80e9) if big else (0x41, 0xe9, 0xff, 0x00, 0x80, 0xe9e9, 0xffff, 0x8000)):
             w = 0x100 if e < 0x100 else 0x10000
             needles += [e, e + w, e - w, e + (1 << 32), e | (M64 ^ (w - 1))]
         needles += [M64, 0, 1, 0x100, 0x10000, 1 << 32, 1 << 63, M64 ^ 0xff, 0x1e9, 0xffffffe9, 0xffffffff]
@@ -639,8 +641,7 @@ def build_part(L, part, seed, tier):
             needles.append(rng.getrandbits(rng.choice((8, 16, 32, 64))))
         L.table('hn', uniq([(pk(s), n) for s in seqs for n in needles]))
         for es in ('char', 'schar', 'uchar', 'char8', 'bool', 'i16', 'u16'):
-            for ns in ('same', 'short', 'int', 'uint', 'll', 'ull'):
-                L.ob('het_%s_%s' % (es, ns), 'hetero.%s.%s' % (es, ns), 'hn')
+            L.ob('het_' + es, 'hetero.' + es, 'hn')
     elif part == 'mix':
         big = tier == 'thorough'
         pats = [0, 1, 2, 3, 6, 48, 12, M64, M64 - 1, M64 - 5, M64 - 47]
@@ -648,33 +649,28 @@ def build_part(L, part, seed, tier):
             smin = (M64 ^ ((1 << (w - 1)) - 1)) & M64              # sign-extended minimum of the w-bit signed type
             pats += [smin, (smin + 1) & M64, (1 << (w - 1)) - 1, (1 << (w - 1)), ((1 << w) - 1) & M64, ((1 << w) - 2) & M64, (1 << (w - 1)) - 2]
         pats = uniq1(pats)
-        small = [0, 1, 2, 3, 6, 48, M64, M64 - 5, M64 - 2]
-        mm = [p for p in pats if p not in small and (p >> 6) not in (0,)][:: (1 if big else 2)]
+        small = [0, 1, 2, 3, 6, 48, M64, M64 - 5, M64 - 2] if big else [0, 6, 48, M64, M64 - 5]
+        mm = [p for p in pats if p not in small and (p >> 6) not in (0,)][:: (1 if big else 3)]
         rows = [(a, b) for a in pats for b in small] + [(b, a) for a in pats for b in small] + [(a, b) for a in mm for b in mm]
-        for i in range(300 if big else 60):
+        for i in range(200 if big else 40):
             rows.append((rng.getrandbits(rng.choice((7, 8, 15, 16, 31, 32, 63, 64))), rng.getrandbits(rng.choice((3, 8, 16, 32, 64)))))
             rows.append(((-rng.getrandbits(rng.choice((3, 7, 15, 31, 62)))) & M64, rng.getrandbits(rng.choice((3, 8, 16, 32, 64)))))
         L.table('mx', uniq(rows))
-        ts = ('i8', 'u8', 'i16', 'u16', 'i32', 'u32', 'i64', 'u64')
-        for m in ts:
-            for n in ts:
-                for f in ('gcd', 'lcm', 'cmp'):
-                    L.ob('%s_%s_%s' % (f, m, n), '%s.%s.%s' % (f, m, n), 'mx')
+        for m in ('i8', 'u8', 'i16', 'u16', 'i32', 'u32', 'i64', 'u64'):
+            L.ob('mixed_' + m, 'mixed.' + m, 'mx')
     elif part == 'dur':
         big = tier == 'thorough'
         cs = [0, 1, 2, 3, 7, 59, 60, 61, 100, 147, 160, 365, 817, 1000, 4900, 14700, 24855, 35791, 44097, 44100, 48000, 68049, 596523, 26460000,
               2147483, 2147484, 35791394, 35791395, 2147483647, 2147483646, 1073741824, 1073741823, 715827882, 306783378, 89478485]
-        for k in range(1, 32):
+        for k in range(1, 32, (1 if big else 3)):
             cs += [(1 << k) - 1, 1 << k, (1 << k) + 1]
         cs = [c for c in cs if c <= 2147483647]
         cs += [-c for c in cs] + [-2147483648]
-        for i in range(400 if big else 100):
+        for i in range(200 if big else 40):
             cs.append(rng.randint(-(1 << rng.randint(2, 31)), 1 << rng.randint(2, 31)) )
         L.table('dc', [(c & M64,) for c in uniq1(cs)])
-        ds = ('minutes', 'hours', 'days', 'weeks', 'months', 'years', 'sec32', 'ms32', 't44100', 't48000')
-        for f in ds:
-            for t in ds + ('seconds', 'milliseconds'):
-                L.ob('dur_%s_%s' % (f, t), 'duration_cast.%s.%s' % (f, t), 'dc')
+        for f in ('minutes', 'hours', 'days', 'weeks', 'months', 'years', 'sec32', 'ms32', 't44100', 't48000'):
+            L.ob('dur_' + f, 'duration_cast.' + f, 'dc')
     elif part == 'cont':
         # containers at every fill up to full capacity x key below / at / between / above the elements (complete, both tiers)
         L.table('mk', [(m, k) for m in range(16) for k in range(9)])
